@@ -13,7 +13,7 @@ import (
 	"github.com/pip-services3-gox/pip-services3-expressions-gox/tokenizers/generic"
 )
 
-var tokKinds = []string{"generic", "expression", "csv", "mustache", "generic-custom", "generic-arrows", "csv-wide", "generic-quotes", "generic-unknownsym"}
+var tokKinds = []string{"generic", "expression", "csv", "mustache", "generic-custom", "generic-arrows", "csv-wide", "generic-quotes", "generic-unknownsym", "expression-custom", "generic-2quotes"}
 
 var optNames = []string{"skipUnknown", "skipWhitespaces", "skipComments", "skipEof", "mergeWhitespaces", "unifyNumbers", "decodeStrings"}
 
@@ -42,6 +42,11 @@ func newTokenizer(kind string) tokenizers.ITokenizer {
 		t.SetCharacterState(0xab, 0xab, t.QuoteState())
 		t.SetCharacterState(0x201c, 0x201c, t.QuoteState())
 		return t
+	case "generic-2quotes":
+		// a second quote state of another type serves one more quote character
+		t := generic.NewGenericTokenizer()
+		t.SetCharacterState('`', '`', calctok.NewExpressionQuoteState())
+		return t
 	case "generic-unknownsym":
 		// registered symbols that a state itself delivers with the Unknown type
 		t := generic.NewGenericTokenizer()
@@ -52,6 +57,14 @@ func newTokenizer(kind string) tokenizers.ITokenizer {
 		t := csv.NewCsvTokenizer()
 		t.SetFieldSeparators([]rune{0xff1b})
 		t.SetQuoteSymbols([]rune{0xab, '"'})
+		return t
+	case "expression-custom":
+		// the expression tokenizer with user-registered symbols, two of them starting with the sign
+		t := calctok.NewExpressionTokenizer()
+		t.SymbolState().Add("->", tokenizers.Symbol)
+		t.SymbolState().Add("=>", tokenizers.Symbol)
+		t.SymbolState().Add("--", tokenizers.Symbol)
+		t.SymbolState().Add("-=", tokenizers.Symbol)
 		return t
 	case "expression":
 		return calctok.NewExpressionTokenizer()
@@ -236,6 +249,8 @@ var tokAlpha = map[string][]rune{
 	"csv-wide":           {'a', 0xff1b, 0xab, '"', '\r', '\n', 0x416, ',', 0x65e5},
 	"generic-quotes":     {'a', 0xab, 0x201c, '\'', '"', ' ', 0x416, '1', '\n'},
 	"generic-unknownsym": {'a', '?', '!', ' ', '1', '<', 0xffff, '#', '\n'},
+	"expression-custom":  {'a', '1', '-', '>', '=', '.', '<', ' ', '\''},
+	"generic-2quotes":    {'a', '`', '\'', '"', ' ', '1', '\n'},
 }
 
 // the most significant subset (push-back paths) for deeper exhaustive enumeration
@@ -249,6 +264,8 @@ var tokAlphaCore = map[string][]rune{
 	"csv-wide":           {'a', 0xff1b, 0xab, '\r', 0x416},
 	"generic-quotes":     {'a', 0xab, 0x201c, '\'', ' '},
 	"generic-unknownsym": {'a', '?', '!', ' ', 0xffff},
+	"expression-custom":  {'a', '1', '-', '>', '='},
+	"generic-2quotes":    {'a', '`', '\'', ' '},
 }
 
 var tokSnippets = map[string][]string{
@@ -260,6 +277,8 @@ var tokSnippets = map[string][]string{
 	"csv-wide":           {"日本；語；«q；»»r«\r\nстрана；\"x\"\"y\"；；\n", "a,b；c\r«open；"},
 	"generic-quotes":     {"a «b c« “d“ 'e' \"f\" «open", "x«« ““y «'« “\"“"},
 	"generic-unknownsym": {"a ? b ?! c !? <= ?", "??!?\uffff?# c\n?"},
+	"expression-custom":  {"a->b => c-- -= -1 - 2 --3 ->> =>= <=> a-b", "x-->y -=- 1e-5 -.5 ->"},
+	"generic-2quotes":    {"a `b``c` 'd' \"e\" `open", "`` ```` `'` '`' x"},
 	"mustache":   {"Hello, {{Name}}!", "{{#if A}}x{{/if}}{{^B}}y{{/B}}", "{{{raw}}} {{! c }} {{ a b }} {", "{{ 'q' \"r\" }}} }} {{", "a{b{{c}d}}e}}}", "{{#a}}\n{{/a}}\r\n"},
 }
 
